@@ -60,12 +60,27 @@ pub fn run_pool(
     timeout: Duration,
     mem_mb: u64,
 ) -> Vec<WOut> {
+    run_pool_progress(name, extra, cases, nworkers, timeout, mem_mb).0
+}
+
+/// As `run_pool`, also returning for every crashed / timed-out case the last progress mark
+/// (a line starting with '#') the worker had printed.
+pub fn run_pool_progress(
+    name: &str,
+    extra: &[String],
+    cases: &[String],
+    nworkers: usize,
+    timeout: Duration,
+    mem_mb: u64,
+) -> (Vec<WOut>, Vec<Option<String>>) {
+    let last_progress: Arc<Mutex<Vec<Option<String>>>> = Arc::new(Mutex::new(vec![None; cases.len()]));
     let results: Arc<Mutex<Vec<Option<WOut>>>> = Arc::new(Mutex::new(vec![None; cases.len()]));
     let next = Arc::new(AtomicUsize::new(0));
     std::thread::scope(|s| {
         for _ in 0..nworkers.min(cases.len().max(1)) {
             let results = results.clone();
             let next = next.clone();
+            let last_progress = last_progress.clone();
             s.spawn(move || {
                 let mut w = spawn_worker(name, extra, mem_mb);
                 loop {
@@ -83,12 +98,23 @@ pub fn run_pool(
                         if wr.is_err() {
                             WOut::Crash("write to worker failed".into())
                         } else {
-                            match w.rx.recv_timeout(timeout) {
-                                Ok(l) => WOut::Ok(l),
-                                Err(RecvTimeoutError::Timeout) => WOut::Timeout,
-                                Err(RecvTimeoutError::Disconnected) => {
-                                    let st = w.child.wait().ok();
-                                    WOut::Crash(format!("{:?}", st))
+                            // lines starting with '#' are progress marks: they restart the limit
+                            // (which is therefore a per-step limit) and are remembered so that a
+                            // crash can be attributed to the step that was running
+                            let mut progress: Option<String> = None;
+                            loop {
+                                match w.rx.recv_timeout(timeout) {
+                                    Ok(l) if l.starts_with('#') => progress = Some(l[1..].to_string()),
+                                    Ok(l) => break WOut::Ok(l),
+                                    Err(RecvTimeoutError::Timeout) => {
+                                        last_progress.lock().unwrap()[i] = progress;
+                                        break WOut::Timeout;
+                                    }
+                                    Err(RecvTimeoutError::Disconnected) => {
+                                        let st = w.child.wait().ok();
+                                        last_progress.lock().unwrap()[i] = progress;
+                                        break WOut::Crash(format!("{:?}", st));
+                                    }
                                 }
                             }
                         }
@@ -107,7 +133,18 @@ pub fn run_pool(
         }
     });
     let r = results.lock().unwrap();
-    r.iter().map(|x| x.clone().unwrap()).collect()
+    let p = last_progress.lock().unwrap();
+    (r.iter().map(|x| x.clone().unwrap()).collect(), p.clone())
+}
+
+/// Print a progress mark from inside a worker.
+pub fn progress(mark: &str) {
+    let stdout = std::io::stdout();
+    let mut o = stdout.lock();
+    let _ = o.write_all(b"#");
+    let _ = o.write_all(mark.as_bytes());
+    let _ = o.write_all(b"\n");
+    let _ = o.flush();
 }
 
 /// Child side: apply the address-space limit, then answer one line per input line.
